@@ -115,8 +115,10 @@ def parse_compdb_entry(e):
 def run_case(case):
     res = CaseResult()
     spec, opts = case['spec'], case['opts']
-    if opts['global']:
-        spec = dict(spec)
+    import copy
+    spec = copy.deepcopy(spec)
+    # what a library() node is depends on how the project is configured
+    dag.set_mode(spec, *dag.mode_of_args(opts['args']))
     root = core.mkscratch('c06')
     projs = {}
     wb = {'index': case.get('index'), 'opts': opts}
